@@ -18,8 +18,8 @@
 (*           [k |-> "pos", v]          a bare word (positional value or    *)
 (*                                     sub-command name)                   *)
 (*           [k |-> "opt", n, v]       --n=<text of v>                     *)
-(*           [k |-> "cfg", v |-> m]    --config=<json of m>, m a map       *)
-(*                                     name -> value | [k |-> "map", v]    *)
+(*           [k |-> "cfg", m |-> m]    --config=<json of m>, m a map       *)
+(*                                     name -> value | [k |-> "map", m]    *)
 (*   aspos   auto_cli(as_positional=...)                                   *)
 (*                                                                         *)
 (* Two layers.                                                             *)
@@ -42,24 +42,27 @@ EXTENDS Integers, Sequences, FiniteSets, TLC, SequencesExt
 (***************************************************************************)
 (* Values (tagged records, tag first), types, conversion                   *)
 (***************************************************************************)
-VInt(n)  == [k |-> "int",  v |-> n]
-VStr(s)  == [k |-> "str",  v |-> s]
-VBool(b) == [k |-> "bool", v |-> b]
-VList(s) == [k |-> "list", v |-> s]          \* list of ints
-VEnum(n) == [k |-> "enum", v |-> n]          \* member of the generated Enum, by name
+VInt(n)  == [k |-> "int",  i |-> n]
+VStr(s)  == [k |-> "str",  s |-> s]
+VBool(b) == [k |-> "bool", b |-> b]
+VList(s) == [k |-> "list", l |-> s]          \* list of ints
+VEnum(n) == [k |-> "enum", e |-> n]          \* member of the generated Enum, by name
 VNull    == [k |-> "null"]                   \* Python None
 NoVal    == [k |-> "none"]                   \* absence (inspect._empty / key not in cfg); not a Python value
 Bad      == [k |-> "bad"]                    \* conversion failed
-VMap(m)  == [k |-> "map", v |-> m]
+VMap(m)  == [k |-> "map", m |-> m]
 
 EnumMembers == {"A", "B"}
 IsOpt(t) == Len(t) > 4 /\ SubSeq(t, 1, 4) = "opt_"
 Opt(t)   == "opt_" \o t
 Unopt(t) == SubSeq(t, 5, Len(t))
 \* the text a value is written as on the command line (gamma of the harness writes exactly this)
-Text(v) == CASE v.k = "str"  -> v.v
-             [] v.k = "int"  -> ToString(v.v)
-             [] v.k = "bool" -> (IF v.v THEN "true" ELSE "false")
+RECURSIVE ListText(_, _)
+ListText(l, i) == IF i > Len(l) THEN "" ELSE (IF i > 1 THEN "," ELSE "") \o ToString(l[i]) \o ListText(l, i + 1)
+Text(v) == CASE v.k = "str"  -> v.s
+             [] v.k = "list" -> "[" \o ListText(v.l, 1) \o "]"
+             [] v.k = "int"  -> ToString(v.i)
+             [] v.k = "bool" -> (IF v.b THEN "true" ELSE "false")
              [] v.k = "null" -> "null"
              [] OTHER        -> "?"
 
@@ -69,8 +72,8 @@ ConvBase(t, v, src) ==
   CASE t = "int"     -> IF v.k = "int"  THEN v ELSE Bad
     [] t = "bool"    -> IF v.k = "bool" THEN v ELSE Bad
     [] t = "listint" -> IF v.k = "list" THEN v ELSE Bad
-    [] t = "enum"    -> IF v.k = "str" /\ v.v \in EnumMembers THEN VEnum(v.v) ELSE Bad
-    [] t = "str"     -> IF src = "argv" THEN (IF v.k \in {"str", "int", "bool", "null"} THEN VStr(Text(v)) ELSE Bad)
+    [] t = "enum"    -> IF v.k = "str" /\ v.s \in EnumMembers THEN VEnum(v.s) ELSE Bad
+    [] t = "str"     -> IF src = "argv" THEN (IF v.k \in {"str", "int", "bool", "null", "list"} THEN VStr(Text(v)) ELSE Bad)
                         ELSE (IF v.k = "str" THEN v ELSE Bad)
     [] OTHER         -> Bad
 Conv(t, v, src) == IF IsOpt(t) THEN (IF v.k = "null" THEN VNull ELSE ConvBase(Unopt(t), v, src)) ELSE ConvBase(t, v, src)
@@ -83,9 +86,9 @@ FrontSeq(s) == SubSeq(s, 1, Len(s) - 1)
 Put(f, key, val) == [x \in (DOMAIN f) \cup {key} |-> IF x = key THEN val ELSE f[x]]
 DelKeys(f, S) == [x \in (DOMAIN f) \ S |-> f[x]]
 EmptyFn == [x \in {} |-> NoVal]
+BadCfg == [x \in {<<"?bad">>} |-> Bad]        \* a failed config application (comparable with a cfg function)
 SeqToSet(s) == {s[i] : i \in 1..Len(s)}
 Underscore(n) == Len(n) > 0 /\ SubSeq(n, 1, 1) = "_"
-Idx(s, P(_)) == CHOOSE i \in 1..Len(s) : P(s[i])
 
 (***************************************************************************)
 (* The component as a tree of levels.  A level is a sequence of names (the *)
@@ -162,13 +165,15 @@ RefHasConfig(cs, lvl) ==
 
 \* the settings of a config map as a sequence of assignments [lvl, n, v, src |-> "cfg"]; unknown keys become "bad" markers
 Asg(lvl, n, v, src) == [lvl |-> lvl, n |-> n, v |-> v, src |-> src]
-RECURSIVE RefCfgAsg(_, _, _)
-RefCfgAsg(cs, lvl, m) ==
-  LET ks == SetToSeq(DOMAIN m)
-      One(n) == IF m[n].k = "map"
-                THEN (IF n \in LvlSubs(cs, lvl) THEN RefCfgAsg(cs, lvl \o <<n>>, m[n].v) ELSE <<Asg(lvl, n, Bad, "bad")>>)
-                ELSE (IF RefIsSetting(cs, lvl, n) THEN <<Asg(lvl, n, m[n], "cfg")>> ELSE <<Asg(lvl, n, Bad, "bad")>>)
-  IN FoldLeft(LAMBDA acc, n : acc \o One(n), << >>, ks)
+RECURSIVE RefCfgAsg(_, _, _), RefCfgAsgI(_, _, _, _, _)
+RefCfgAsgI(cs, lvl, m, ks, i) ==
+  IF i > Len(ks) THEN << >>
+  ELSE LET n == ks[i]
+           one == IF m[n].k = "map"
+                  THEN (IF n \in LvlSubs(cs, lvl) THEN RefCfgAsg(cs, lvl \o <<n>>, m[n].m) ELSE <<Asg(lvl, n, Bad, "bad")>>)
+                  ELSE (IF RefIsSetting(cs, lvl, n) THEN <<Asg(lvl, n, m[n], "cfg")>> ELSE <<Asg(lvl, n, Bad, "bad")>>)
+       IN one \o RefCfgAsgI(cs, lvl, m, ks, i + 1)
+RefCfgAsg(cs, lvl, m) == RefCfgAsgI(cs, lvl, m, SetToSeq(DOMAIN m), 1)
 
 \* left-to-right reading of the command line.  np = positional words seen at this level.
 RECURSIVE RefScan(_, _, _, _, _)
@@ -178,14 +183,14 @@ RefScan(cs, toks, lvl, np, acc) ==
            ps == RefPosSeq(cs, lvl)
        IN CASE tk.k = "pos" ->
                  IF np < Len(ps) THEN RefScan(cs, Tail(toks), lvl, np + 1, Append(acc, Asg(lvl, ps[np + 1].n, tk.v, "argv")))
-                 ELSE IF tk.v.k = "str" /\ tk.v.v \in LvlSubs(cs, lvl)
-                      THEN RefScan(cs, Tail(toks), lvl \o <<tk.v.v>>, 0, Append(acc, Asg(lvl, "subcommand", tk.v, "sel")))
+                 ELSE IF tk.v.k = "str" /\ tk.v.s \in LvlSubs(cs, lvl)
+                      THEN RefScan(cs, Tail(toks), lvl \o <<tk.v.s>>, 0, Append(acc, Asg(lvl, "subcommand", tk.v, "sel")))
                       ELSE Append(acc, Asg(lvl, "?", Bad, "bad"))                                        \* a word nobody takes
             [] tk.k = "opt" ->
                  IF RefIsOption(cs, lvl, tk.n) THEN RefScan(cs, Tail(toks), lvl, np, Append(acc, Asg(lvl, tk.n, tk.v, "argv")))
                  ELSE Append(acc, Asg(lvl, tk.n, Bad, "bad"))                                            \* unknown option
             [] tk.k = "cfg" ->
-                 IF RefHasConfig(cs, lvl) THEN RefScan(cs, Tail(toks), lvl, np, acc \o RefCfgAsg(cs, lvl, tk.v))
+                 IF RefHasConfig(cs, lvl) THEN RefScan(cs, Tail(toks), lvl, np, acc \o RefCfgAsg(cs, lvl, tk.m))
                  ELSE Append(acc, Asg(lvl, "config", Bad, "bad"))
 RefAsgs(cs) == RefScan(cs, cs.argv, << >>, 0, << >>)
 
@@ -194,7 +199,7 @@ RefHasSettings(as, lvl) == \E i \in 1..Len(as) : as[i].src = "cfg" /\ IsPrefixSe
 RECURSIVE RefSelect(_, _, _)
 RefSelect(cs, as, lvl) ==       \* the set of possible selected leaf levels below lvl ({} = no sub-command selected)
   IF LvlSubs(cs, lvl) = {} THEN {lvl}
-  ELSE LET expl == {as[i].v.v : i \in {j \in 1..Len(as) : as[j].src = "sel" /\ as[j].lvl = lvl}}
+  ELSE LET expl == {as[i].v.s : i \in {j \in 1..Len(as) : as[j].src = "sel" /\ as[j].lvl = lvl}}
            impl == {s \in LvlSubs(cs, lvl) : RefHasSettings(as, lvl \o <<s>>)}
            cand == IF expl # {} THEN expl ELSE impl
        IN UNION {RefSelect(cs, as, lvl \o <<s>>) : s \in cand}
@@ -261,17 +266,17 @@ AlgFillDefaults(cs, lvl, cfg, i) ==      \* get_defaults:1008-1015 / handle_subc
 
 \* ActionConfigFile.apply_config -> _apply_actions, _core.py:1330-1379: every key of the file is looked up
 \* (sub-command sections recursively), the value checked against the action
-RECURSIVE AlgApplyCfg(_, _, _, _)
-AlgApplyCfg(cs, lvl, m, cfg) ==
-  LET ks == SetToSeq(DOMAIN m)
-      Step(acc, n) ==
-        IF acc = Bad THEN Bad
-        ELSE IF m[n].k = "map"
-             THEN (IF n \in LvlSubs(cs, lvl) THEN AlgApplyCfg(cs, lvl \o <<n>>, m[n].v, acc) ELSE Bad)
-             ELSE IF HasAction(cs, lvl, n)
-                  THEN LET val == Conv(ActionOf(cs, lvl, n).t, m[n], "cfg") IN IF val = Bad THEN Bad ELSE Put(acc, lvl \o <<n>>, val)
-                  ELSE Bad                                                            \* NSKeyError at validation
-  IN FoldLeft(Step, cfg, ks)
+RECURSIVE AlgApplyCfg(_, _, _, _), AlgApplyCfgI(_, _, _, _, _, _)
+AlgApplyCfgI(cs, lvl, m, acc, ks, i) ==
+  IF i > Len(ks) \/ acc = BadCfg THEN acc
+  ELSE LET n == ks[i]
+           nxt == IF m[n].k = "map"
+                  THEN (IF n \in LvlSubs(cs, lvl) THEN AlgApplyCfg(cs, lvl \o <<n>>, m[n].m, acc) ELSE BadCfg)
+                  ELSE IF HasAction(cs, lvl, n)
+                       THEN LET val == Conv(ActionOf(cs, lvl, n).t, m[n], "cfg") IN IF val = Bad THEN BadCfg ELSE Put(acc, lvl \o <<n>>, val)
+                       ELSE BadCfg                                                       \* NSKeyError at validation
+       IN AlgApplyCfgI(cs, lvl, m, nxt, ks, i + 1)
+AlgApplyCfg(cs, lvl, m, cfg) == AlgApplyCfgI(cs, lvl, m, cfg, SetToSeq(DOMAIN m), 1)
 
 (***************************************************************************)
 (* Alg layer: the state machine                                            *)
@@ -284,19 +289,23 @@ VARIABLES cs,      \* the case (chosen in Init, constant afterwards)
           cfg,     \* parsed namespace (flattened)
           calls,   \* log of calls made into the component
           ret,     \* value returned by auto_cli
+          meth,    \* _run_component's local `subcommand` (the popped method name)
+          mcfg,    \* _run_component's local `subcommand_cfg`
           out      \* "run" | "ok" | "reject" | "crash"
-vars == <<cs, pc, toks, lvl, npos, cfg, calls, ret, out>>
+vars == <<cs, pc, toks, lvl, npos, cfg, calls, ret, meth, mcfg, out>>
 
-Fail(kind) == /\ out' = kind /\ pc' = "done" /\ UNCHANGED <<cs, toks, lvl, npos, cfg, calls, ret>>
+\* a failure remembers in `ret` the stage (and token kind) it happened at (masked in AlgOutcome; used for coverage counts)
+Fail(kind) == /\ out' = kind /\ pc' = "done" /\ ret' = "at:" \o pc \o (IF pc = "argv" THEN ":" \o Head(toks).k ELSE "")
+              /\ UNCHANGED <<cs, toks, lvl, npos, cfg, calls, meth, mcfg>>
 
 InitCase(c) == /\ cs = c /\ pc = "defaults" /\ toks = c.argv /\ lvl = << >> /\ npos = 0
-               /\ cfg = EmptyFn /\ calls = << >> /\ ret = "" /\ out = "run"
+               /\ cfg = EmptyFn /\ calls = << >> /\ ret = "" /\ meth = "" /\ mcfg = EmptyFn /\ out = "run"
 
 \* parse_args:450  cfg = get_defaults()
 ADefaults == /\ pc = "defaults"
              /\ cfg' = AlgFillDefaults(cs, << >>, cfg, 1)
              /\ pc' = "argv"
-             /\ UNCHANGED <<cs, toks, lvl, npos, calls, ret, out>>
+             /\ UNCHANGED <<cs, toks, lvl, npos, calls, ret, meth, mcfg, out>>
 
 \* argparse consumes a bare word: the next positional of the current parser, else the sub-command action
 \* (_ActionSubCommands.__call__ hands the rest of argv to the sub-parser, _actions.py:661-690)
@@ -306,11 +315,11 @@ APositional == /\ pc = "argv" /\ toks # << >> /\ Head(toks).k = "pos"
                     THEN LET val == Conv(ps[npos + 1].t, tk.v, "argv") IN
                          IF val = Bad THEN Fail("reject")
                          ELSE /\ cfg' = Put(cfg, lvl \o <<ps[npos + 1].dest>>, val) /\ npos' = npos + 1 /\ toks' = Tail(toks)
-                              /\ UNCHANGED <<cs, pc, lvl, calls, ret, out>>
-                    ELSE IF tk.v.k = "str" /\ tk.v.v \in LvlSubs(cs, lvl)
+                              /\ UNCHANGED <<cs, pc, lvl, calls, ret, meth, mcfg, out>>
+                    ELSE IF tk.v.k = "str" /\ tk.v.s \in LvlSubs(cs, lvl)
                     THEN /\ cfg' = Put(cfg, lvl \o <<"subcommand">>, tk.v)
-                         /\ lvl' = lvl \o <<tk.v.v>> /\ npos' = 0 /\ toks' = Tail(toks)
-                         /\ UNCHANGED <<cs, pc, calls, ret, out>>
+                         /\ lvl' = lvl \o <<tk.v.s>> /\ npos' = 0 /\ toks' = Tail(toks)
+                         /\ UNCHANGED <<cs, pc, calls, ret, meth, mcfg, out>>
                     ELSE Fail("reject")                                  \* invalid choice / unrecognized arguments (parse_args:457-458)
 
 \* ActionTypeHint.__call__ for --name=value (_typehints.py:521-552); required positionals have no option string
@@ -320,20 +329,20 @@ AOption == /\ pc = "argv" /\ toks # << >> /\ Head(toks).k = "opt"
                 THEN LET val == Conv(ActionOf(cs, lvl, tk.n).t, tk.v, "argv") IN
                      IF val = Bad THEN Fail("reject")
                      ELSE /\ cfg' = Put(cfg, lvl \o <<tk.n>>, val) /\ toks' = Tail(toks)
-                          /\ UNCHANGED <<cs, pc, lvl, npos, calls, ret, out>>
+                          /\ UNCHANGED <<cs, pc, lvl, npos, calls, ret, meth, mcfg, out>>
                 ELSE Fail("reject")
 
 \* ActionConfigFile.__call__ / apply_config (_actions.py:196-228): load, check, merge over what was parsed so far
 AConfig == /\ pc = "argv" /\ toks # << >> /\ Head(toks).k = "cfg"
            /\ IF ~AlgHasConfig(cs, lvl) THEN Fail("reject")
-              ELSE LET c2 == AlgApplyCfg(cs, lvl, Head(toks).v, cfg) IN
-                   IF c2 = Bad THEN Fail("reject")
+              ELSE LET c2 == AlgApplyCfg(cs, lvl, Head(toks).m, cfg) IN
+                   IF c2 = BadCfg THEN Fail("reject")
                    ELSE /\ cfg' = Put(c2, lvl \o <<"config">>, VStr("<config>")) /\ toks' = Tail(toks)
-                        /\ UNCHANGED <<cs, pc, lvl, npos, calls, ret, out>>
+                        /\ UNCHANGED <<cs, pc, lvl, npos, calls, ret, meth, mcfg, out>>
 
 AEndArgv == /\ pc = "argv" /\ toks = << >>
             /\ pc' = "subcommands" /\ lvl' = << >>
-            /\ UNCHANGED <<cs, toks, npos, cfg, calls, ret, out>>
+            /\ UNCHANGED <<cs, toks, npos, cfg, calls, ret, meth, mcfg, out>>
 
 \* _ActionSubCommands.get_subcommands / handle_subcommands (_actions.py:692-798), one level per step: the explicit
 \* sub-command, else the first choice that has settings; the sections of the other choices are removed; the
@@ -341,17 +350,17 @@ AEndArgv == /\ pc = "argv" /\ toks = << >>
 HasSection(c, l) == \E key \in DOMAIN c : IsPrefixSeq(l, key) /\ Len(key) > Len(l)
 ASubcommands ==
   /\ pc = "subcommands"
-  /\ IF LvlSubs(cs, lvl) = {} THEN /\ pc' = "validate" /\ UNCHANGED <<cs, toks, lvl, npos, cfg, calls, ret, out>>
+  /\ IF LvlSubs(cs, lvl) = {} THEN /\ pc' = "validate" /\ UNCHANGED <<cs, toks, lvl, npos, cfg, calls, ret, meth, mcfg, out>>
      ELSE LET subs == LvlSubSeq(cs, lvl)
               withs == SelectSeq(subs, LAMBDA s : HasSection(cfg, lvl \o <<s>>))
-              sel == IF CfgHas(cfg, lvl \o <<"subcommand">>) THEN cfg[lvl \o <<"subcommand">>].v
+              sel == IF CfgHas(cfg, lvl \o <<"subcommand">>) THEN cfg[lvl \o <<"subcommand">>].s
                      ELSE IF Len(withs) > 0 THEN withs[1] ELSE ""
           IN IF sel = "" THEN Fail("reject")                              \* :732-743 required sub-command not provided
              ELSE LET others == {key \in DOMAIN cfg : \E s \in LvlSubs(cs, lvl) \ {sel} : IsPrefixSeq(lvl \o <<s>>, key) /\ Len(key) > Len(lvl)}
                       c1 == Put(DelKeys(cfg, others), lvl \o <<"subcommand">>, VStr(sel))
                   IN /\ cfg' = AlgFillDefaults(cs, lvl \o <<sel>>, c1, 1)
                      /\ lvl' = lvl \o <<sel>>
-                     /\ UNCHANGED <<cs, pc, toks, npos, calls, ret, out>>
+                     /\ UNCHANGED <<cs, pc, toks, npos, calls, ret, meth, mcfg, out>>
 
 \* validate -> check_required (_core.py:1097-1109) along the selected chain; lvl is the selected leaf level here
 RECURSIVE AlgRequiredOK(_, _, _, _)
@@ -361,69 +370,79 @@ AlgRequiredOK(c, case, l, k) ==      \* levels << >>, l[1..1], ..., l
                a.req => (CfgHas(c, cur \o <<a.dest>>) /\ c[cur \o <<a.dest>>] # VNull)
   IN ok /\ (k = Len(l) \/ AlgRequiredOK(c, case, l, k + 1))
 AValidate == /\ pc = "validate"
-             /\ IF AlgRequiredOK(cfg, cs, lvl, 0) THEN /\ pc' = "locate" /\ UNCHANGED <<cs, toks, lvl, npos, cfg, calls, ret, out>>
+             /\ IF AlgRequiredOK(cfg, cs, lvl, 0) THEN /\ pc' = "locate" /\ UNCHANGED <<cs, toks, lvl, npos, cfg, calls, ret, meth, mcfg, out>>
                 ELSE Fail("reject")
 
 \* auto_cli:93-102 (single component) and :116-125 (walk init[...]."subcommand" while the dotted name is a component)
 RECURSIVE AlgLocate(_, _, _)
 AlgLocate(case, c, p) ==
-  IF CfgHas(c, p \o <<"subcommand">>) /\ (IsLeaf(case, p \o <<c[p \o <<"subcommand">>].v>>) \/ IsGroup(case, p \o <<c[p \o <<"subcommand">>].v>>))
-  THEN AlgLocate(case, c, p \o <<c[p \o <<"subcommand">>].v>>) ELSE p
+  IF CfgHas(c, p \o <<"subcommand">>) /\ (IsLeaf(case, p \o <<c[p \o <<"subcommand">>].s>>) \/ IsGroup(case, p \o <<c[p \o <<"subcommand">>].s>>))
+  THEN AlgLocate(case, c, p \o <<c[p \o <<"subcommand">>].s>>) ELSE p
 ALocate == /\ pc = "locate"
            /\ lvl' = IF IsLeaf(cs, << >>) THEN << >> ELSE AlgLocate(cs, cfg, << >>)
            /\ pc' = "pop"
-           /\ UNCHANGED <<cs, toks, npos, cfg, calls, ret, out>>
+           /\ UNCHANGED <<cs, toks, npos, cfg, calls, ret, meth, mcfg, out>>
 
-\* the keyword arguments a level's namespace holds: its direct keys
-LevelKw(c, l) == LET names == {key[Len(l) + 1] : key \in {q \in DOMAIN c : Len(q) = Len(l) + 1 /\ IsPrefixSeq(l, q)}}
-                 IN [n \in names |-> c[l \o <<n>>]]
+\* the keyword arguments a level's namespace holds: its direct keys (a nested section counts as one key)
+LevelKw(c, l) == LET below == {q \in DOMAIN c : Len(q) > Len(l) /\ IsPrefixSeq(l, q)}
+                     names == {q[Len(l) + 1] : q \in below}
+                 IN [n \in names |-> IF (l \o <<n>>) \in DOMAIN c THEN c[l \o <<n>>] ELSE [k |-> "section"]]
+Section(c, l) == {q \in DOMAIN c : Len(q) > Len(l) /\ IsPrefixSeq(l, q)}
 
 \* _run_component:203-204  cfg.pop("config"); subcommand = cfg.pop("subcommand")
-\*                :206-207 subcommand_cfg = cfg.pop(subcommand); subcommand_cfg.pop("config")   (class with a method)
+\*                :206-207 subcommand_cfg = cfg.pop(subcommand, {}); subcommand_cfg.pop("config")   (class with a method)
 APop == /\ pc = "pop"
         /\ IF ~IsLeaf(cs, lvl) THEN Fail("crash")
-           ELSE LET sub == IF CfgHas(cfg, lvl \o <<"subcommand">>) THEN cfg[lvl \o <<"subcommand">>].v ELSE ""
+           ELSE LET sub == IF CfgHas(cfg, lvl \o <<"subcommand">>) THEN cfg[lvl \o <<"subcommand">>].s ELSE ""
                     c1 == DelKeys(cfg, {lvl \o <<"config">>, lvl \o <<"subcommand">>})
                 IN IF LvlKind(cs, lvl) = "cls" /\ sub # ""
-                   THEN /\ cfg' = DelKeys(c1, {lvl \o <<sub, "config">>}) /\ pc' = "construct" /\ npos' = 0
-                        /\ toks' = <<[k |-> "pos", v |-> VStr(sub)]>>        \* remembers the popped method name
-                        /\ UNCHANGED <<cs, lvl, calls, ret, out>>
-                   ELSE /\ cfg' = c1 /\ pc' = "call"
+                   THEN /\ mcfg' = DelKeys(LevelKw(c1, lvl \o <<sub>>), {"config"})
+                        /\ cfg' = DelKeys(c1, Section(c1, lvl \o <<sub>>))
+                        /\ pc' = "construct" /\ meth' = sub
                         /\ UNCHANGED <<cs, toks, lvl, npos, calls, ret, out>>
+                   ELSE /\ cfg' = c1 /\ pc' = "call"
+                        /\ UNCHANGED <<cs, toks, lvl, npos, calls, ret, meth, mcfg, out>>
 
 \* :208 component_obj = component(**cfg)        (the method's section was popped, so only the class's own keys remain)
 AConstruct == /\ pc = "construct"
               /\ LET kw == LevelKw(cfg, lvl) ps == LvlParams(cs, lvl) IN
                    IF ~PyCallOK(ps, kw) THEN Fail("crash")
                    ELSE /\ calls' = Append(calls, Call(CallName(cs, lvl), PyBind(ps, kw)))
-                        /\ lvl' = lvl \o <<toks[1].v.v>> /\ toks' = << >> /\ pc' = "call"       \* :211-212 component = getattr(obj, subcommand); cfg = subcommand_cfg
-                        /\ UNCHANGED <<cs, npos, cfg, ret, out>>
+                        /\ lvl' = lvl \o <<meth>> /\ pc' = "call"       \* :211-212 component = getattr(obj, subcommand); cfg = subcommand_cfg
+                        /\ UNCHANGED <<cs, toks, npos, cfg, ret, meth, mcfg, out>>
 
 \* :215 return component(**cfg)
 ACall == /\ pc = "call"
-         /\ LET kw == LevelKw(cfg, lvl) ps == LvlParams(cs, lvl) IN
+         /\ LET kw == IF meth # "" THEN mcfg ELSE LevelKw(cfg, lvl)
+                ps == LvlParams(cs, lvl) IN
               IF LvlKind(cs, lvl) \notin {"fn", "method"} \/ ~PyCallOK(ps, kw) THEN Fail("crash")
               ELSE /\ calls' = Append(calls, Call(CallName(cs, lvl), PyBind(ps, kw)))
                    /\ ret' = "ret:" \o CallName(cs, lvl)
                    /\ out' = "ok" /\ pc' = "done"
-                   /\ UNCHANGED <<cs, toks, lvl, npos, cfg>>
+                   /\ UNCHANGED <<cs, toks, lvl, npos, cfg, meth, mcfg>>
 
 Next == ADefaults \/ APositional \/ AOption \/ AConfig \/ AEndArgv \/ ASubcommands \/ AValidate \/ ALocate \/ APop \/ AConstruct \/ ACall
 
 AlgOutcome == Outcome(out, IF out = "ok" THEN calls ELSE << >>, IF out = "ok" THEN ret ELSE "")
 
 (***************************************************************************)
-(* The same machine as a function (used by Trace_Cli to evaluate Alg on a  *)
-(* recorded case without exploring states): run Next to completion.        *)
+(* The recorded deviation (finding "private-optional-no-default"): a       *)
+(* parameter whose name starts with "_", typed Optional and WITHOUT        *)
+(* default is "not required" for _add_signature_parameter (:343-347) and   *)
+(* therefore skipped (:359) -- but Python still requires it, so the call   *)
+(* raises TypeError.  The property wants None to be passed.                *)
 (***************************************************************************)
-\* see Trace_Cli.tla: the trace spec lets TLC run the machine itself, one behaviour per recorded case.
+PrivOptNoDefault(p) == ~p.hd /\ IsOpt(p.t) /\ Underscore(p.n)
+AllLevels == UNION {{SubSeq(cs.leaves[i].path, 1, k) : k \in 0..Len(cs.leaves[i].path)} : i \in 1..Len(cs.leaves)}
+             \cup UNION {{cs.leaves[i].path \o <<cs.leaves[i].c.methods[j].name>> : j \in 1..Len(cs.leaves[i].c.methods)} : i \in 1..Len(cs.leaves)}
+HiddenButRequiredByPython == \E l \in AllLevels : \E i \in 1..Len(LvlParams(cs, l)) : PrivOptNoDefault(LvlParams(cs, l)[i])
 
 (***************************************************************************)
 (* Invariants (checked by MC_Cli on every state of the bounded instance)   *)
 (***************************************************************************)
 Done == pc = "done"
-\* C12, design level: the algorithm produces an outcome the property allows
-AlgRefinesRef == Done => AlgOutcome \in RefOutcomes(cs)
+\* C12, design level: the algorithm produces an outcome the property allows (outside the recorded deviation)
+AlgRefinesRef == (Done /\ ~HiddenButRequiredByPython) => AlgOutcome \in RefOutcomes(cs)
 \* the clauses of the property, on the outcome
 OneCall == (Done /\ out = "ok") =>
              \/ Len(calls) = 1 /\ LvlKind(cs, lvl) = "fn"
@@ -432,11 +451,9 @@ OwnParameters == (Done /\ out = "ok") =>
              /\ DOMAIN calls[Len(calls)].kw = ParamNames(LvlParams(cs, lvl))
              /\ Len(calls) = 2 => DOMAIN calls[1].kw = ParamNames(LvlParams(cs, FrontSeq(lvl)))
 ReturnPassedThrough == (Done /\ out = "ok") => ret = "ret:" \o calls[Len(calls)].name
-NeverCrashes == out # "crash"
-\* the clauses of the property, on the derived parser shape (every level of the component)
-AllLevels == {SubSeq(cs.leaves[i].path, 1, k) : i \in 1..Len(cs.leaves), k \in 0..Len(cs.leaves[i].path)}
-             \cup {cs.leaves[i].path \o <<cs.leaves[i].c.methods[j].name>> : i \in 1..Len(cs.leaves), j \in 1..3}
-ShapeLaws == \A l \in {x \in AllLevels : LvlKind(cs, x) # "none"} : \A i \in 1..Len(LvlParams(cs, l)) :
+NeverCrashes == out = "crash" => HiddenButRequiredByPython
+\* the clauses of the property, on the derived parser shape (every level of the component; once per case)
+ShapeLaws == pc = "defaults" => \A l \in {x \in AllLevels : LvlKind(cs, x) # "none"} : \A i \in 1..Len(LvlParams(cs, l)) :
                LET p == LvlParams(cs, l)[i] IN
                  /\ AlgRequired(p) <=> (~p.hd /\ ~IsOpt(p.t))                               \* required <=> no default (Optional excepted)
                  /\ (~p.hd /\ IsOpt(p.t)) => (AlgDefault(p) = VNull /\ ~Action(p, cs.aspos).pos)   \* Optional without default: option defaulting to None
